@@ -531,8 +531,11 @@ def evaluate(cases: list[dict], ch: Channel) -> None:
         ch.count(f"status:{r['status']}")
         ch.count(f"mode:{c['mode']}/{c['addr']}")
         if r["fails"]:
-            mini = shrink(c)
-            rr = run_case(mini)
+            # the first few failures are shrunk (options dropped one at a time), the rest recorded as found
+            mini, rr = c, r
+            if len(ch.oracle_failures) < 3:
+                mini = shrink(c)
+                rr = run_case(mini)
             ch.oracle_failures.append({"case": case_json(mini), "failures": rr["fails"] or r["fails"],
                                        "stored_segment": rr.get("k", r.get("k"))})
         if r["status"] != 200:
